@@ -324,6 +324,9 @@ def compare(h, m: Model, handles) -> list[Fail]:
         if op_key(d.op) != op_key(mk_pool_op(mn["op"])):
             f.append(Fail("query.op", "node", f"node {i}"))
         no, ni = h.num_out_ports(handles[i]), h.num_in_ports(handles[i])
+        from hugr.hugr.node_port import Direction
+        if h.num_ports(handles[i], Direction.OUTGOING) != no or h.num_ports(handles[i], Direction.INCOMING) != ni:
+            f.append(Fail("query.num_ports", "direction", f"node {i}: num_ports out/in={h.num_ports(handles[i], Direction.OUTGOING)}/{h.num_ports(handles[i], Direction.INCOMING)} vs num_out_ports/num_in_ports={no}/{ni}"))
         if no < mn["min_out"] or ni < mn["min_in"]:
             f.append(Fail("query.port-count", "too-small", f"node {i}: out {no}<{mn['min_out']} or in {ni}<{mn['min_in']}"))
         outs = Counter()
